@@ -72,6 +72,11 @@ def getattr(I, st, v, name):
                 yield st, st.alloc(DictE(dict(e.attrs)))
                 return
             m, where = I.class_lookup(e.cls, name)
+            from .values import PropertyVal
+
+            if isinstance(m, PropertyVal):
+                yield from I.call(m.fget, [v], {}, st)
+                return
             if isinstance(m, FuncVal) and "property" in m.decorators():
                 yield from I.call(m, [v], {}, st)
                 return
@@ -253,6 +258,9 @@ def getattr(I, st, v, name):
     if isinstance(v, BoundMethod) and name == "__name__":
         yield st, v.func.name
         return
+    if is_boollike(v) and name == "__bool__":
+        yield st, simple("bool.__bool__", lambda I, st: v)
+        return
     if is_z3(v) or isinstance(v, (int, Fraction)):
         if name == "real":
             yield st, v
@@ -359,6 +367,15 @@ def setattr(I, st, obj, name, v, raw=False):
                     yield st1, (r if isinstance(r, Exc) else None)
                 return
             g, _ = I.class_lookup(e.cls, name)
+            from .values import PropertyVal
+
+            if isinstance(g, PropertyVal):
+                if g.fset is None:
+                    yield st, exc("AttributeError", "can't set attribute '%s'" % name)
+                    return
+                for st1, r in I.call(g.fset, [obj, v], {}, st):
+                    yield st1, (r if isinstance(r, Exc) else None)
+                return
             if isinstance(g, FuncVal) and "property" in g.decorators():
                 yield st, exc("AttributeError", "can't set attribute '%s'" % name)
                 return
@@ -1307,7 +1324,11 @@ def make_builtins(I):
     add("next", _next)
 
     def _property(I, st, a, k):
-        raise Unsupported("property() call")
+        from .values import PropertyVal
+
+        fget = a[0] if a else k.get("fget")
+        fset = a[1] if len(a) > 1 else k.get("fset")
+        yield st, PropertyVal(fget, fset)
 
     add("property", _property)
     add("staticmethod", lambda I, st, a, k: iter([(st, a[0])]))
